@@ -57,6 +57,7 @@ Check c19_conversation_wire_is_whole_frames :
     Inv packet parse ver_of is_keepalive version m verify pong c s ->
     WInv packet is_keepalive pong s (done ++ acc) ->
     conv_ok packet is_keepalive pong done (aconv packet parse ver_of is_keepalive version m verify pong fuel c s rs ws cancels wsched acc).
+Check c19_model_state_is_the_struct : state_tied = true.
 Print Assumptions c19_cancel_safe.
 Print Assumptions c19_resume_equals_fresh.
 Print Assumptions c19_suspension_invariant.
@@ -65,3 +66,4 @@ Print Assumptions c19_uninterrupted_is_the_connection.
 Print Assumptions c19_reply_state_in_future_refuted.
 Print Assumptions c19_conversation_without_writes_is_the_session.
 Print Assumptions c19_conversation_wire_is_whole_frames.
+Print Assumptions c19_model_state_is_the_struct.
